@@ -18,7 +18,7 @@ EXTENDS Integers, Sequences, FiniteSets, TLC, Json, IOUtils
 MetaV  == {"nil", "empty", "full"}
 NlV    == {"nil", "empty", "nodes"}
 RootsV == {"none", "one", "many", "dangling", "dup", "emptyid"}
-NodesV == {"plain", "nilnode", "dupid", "emptyid", "badenum", "negenum", "rich", "protoids", "odd-urls"}
+NodesV == {"plain", "nilnode", "dupid", "emptyid", "badenum", "negenum", "rich", "protoids", "odd-urls", "mixed-purposes"}
 EdgesV == {"none", "tree", "cycle", "cycle-tail", "island-cycle", "deps-cycle", "dup-deps", "dag", "dangling", "niledge", "dupedge", "emptyto", "selfloop", "negtype", "shared-child", "random", "ladder"}
 DtV    == {"none", "typed", "nilall", "other-nilname", "other-named", "runtime", "badenum", "negenum"}
 ExtraV == {"none", "nilperson", "nilextref", "niltool", "nilauthor", "nildoctype", "paren-person"}
@@ -32,7 +32,9 @@ Allowed(o) == o \in {"ok", "err"}
 \* JSON fault model
 FaultKinds == {"null", "string", "number", "bool", "array", "object", "empty", "absent", "duplicated", "oversized",
                \* boundary values of structured strings ("Type: name", SPDX special values)
-               "cut-after-colon", "whitespace", "noassertion"}
+               "cut-after-colon", "whitespace", "noassertion",
+               \* the optional trailing "(group)" of an actor string standing alone, and opened but never closed
+               "paren-only", "paren-unclosed"}
 
 CONSTANTS Export      \* "shapes" | "faults" | "none"
 \* every JSON path of the representative documents, listed by the harness ("document#/path")
